@@ -185,6 +185,78 @@ func refRenameFn(fd *ast.FuncDecl) string {
 	return d
 }
 
+// varsMergeDirInplace inspects (*Vars).Merge: the statement that assigns `<x>.Dir = include.Dir`.
+// "true": x is rooted at the loop variable that points into the OTHER map (pair.Value.Dir): the included
+// Taskfile's variable is modified in place; "false": x is a local variable initialised from
+// <loopvar>.Value and that same local is what Set stores; "?": anything else.
+func varsMergeDirInplace(fd *ast.FuncDecl) (string, string) {
+	if fd == nil || fd.Body == nil {
+		return "?", "?"
+	}
+	result, lhsText := "?", "?"
+	ast.Inspect(fd.Body, func(n ast.Node) bool {
+		fs, ok := n.(*ast.ForStmt)
+		if !ok {
+			return true
+		}
+		loopVar := ""
+		if as, ok := fs.Init.(*ast.AssignStmt); ok && len(as.Lhs) == 1 {
+			if id, ok := as.Lhs[0].(*ast.Ident); ok {
+				loopVar = id.Name
+			}
+		}
+		if loopVar == "" {
+			return true
+		}
+		copies := map[string]bool{} // locals initialised from <loopVar>.Value
+		var dirRoot string
+		stored := ""
+		nDir := 0
+		ast.Inspect(fs.Body, func(m ast.Node) bool {
+			switch x := m.(type) {
+			case *ast.AssignStmt:
+				if len(x.Lhs) == 1 && len(x.Rhs) == 1 {
+					if id, ok := x.Lhs[0].(*ast.Ident); ok && exprStr(x.Rhs[0]) == loopVar+".Value" {
+						copies[id.Name] = true
+					}
+					if se, ok := x.Lhs[0].(*ast.SelectorExpr); ok && se.Sel.Name == "Dir" {
+						nDir++
+						lhsText = exprStr(x.Lhs[0])
+						root := se.X
+						for {
+							if s2, ok := root.(*ast.SelectorExpr); ok {
+								root = s2.X
+								continue
+							}
+							break
+						}
+						if id, ok := root.(*ast.Ident); ok {
+							dirRoot = id.Name
+						}
+					}
+				}
+			case *ast.CallExpr:
+				if se, ok := x.Fun.(*ast.SelectorExpr); ok && se.Sel.Name == "Set" && len(x.Args) == 2 {
+					stored = exprStr(x.Args[1])
+				}
+			}
+			return true
+		})
+		switch {
+		case nDir != 1:
+			result = "?"
+		case dirRoot == loopVar:
+			result = "true"
+		case copies[dirRoot] && stored == dirRoot:
+			result = "false"
+		default:
+			result = "?"
+		}
+		return false
+	})
+	return result, lhsText
+}
+
 func factsMerge(repo string, o *out) {
 	p := load(filepath.Join(repo, "taskfile/ast"))
 	root := load(repo)
@@ -216,4 +288,9 @@ func factsMerge(repo string, o *out) {
 	}
 	o.def("tasks_merge_ref_fn_trims", "string", "\""+trims+"\"")
 	o.def("tasks_merge_calls", "list string", coqStrList(calledNames(tm)))
+
+	// Vars.Merge: is include.Dir written into the included Taskfile's variable or into a copy
+	inpl, lhs := varsMergeDirInplace(p.funcDecl("Vars", "Merge"))
+	o.def("vars_merge_dir_inplace", "string", "\""+inpl+"\"")
+	o.def("vars_merge_dir_lhs", "string", "\""+lhs+"\"")
 }
